@@ -478,6 +478,10 @@ def worker_thread_obligations(ctx):
                                                  'request with a free key is parked for ever'), tx)
     if not found:
         ctx.bad(f'{tx.qualname}:free key is sent and registered, taken key is parked', tx.node, 'no membership test on active_requests in the transmit thread', tx)
+    ctx.check(bool(stores) and bool(sends) and all(cfg.dominates(list(stores), i) for i in sends), f'{tx.qualname}:registered before the bytes leave', tx.node,
+              'active_requests[key] = entry dominates io.send(line)',
+              'the request is sent before it is registered under its reply key: a reply that the receive thread reads in between finds no entry, is reported as '
+              'unhandled and dropped - the caller times out and a stale entry parks every later request with that key', tx)
     ctx.analysed(rx)
     cfgr = CFG(rx.node, m, rx.module)
     sets = {i for c in calls_in(rx.node) if call_attr(c) == 'set' and '[1]' in src(c.func) for i in cfgr.node_of(c)}
@@ -551,6 +555,11 @@ def a_new_connection_starts_clean_and_running(ctx):
         ctx.check(bool(cl) and all(in_lock(c, '_lock') for c in cl), f'{f.qualname}:{name} emptied for the new connection', f.node, f'self.{name}.clear() inside the connect lock',
                   f'self.{name} is not emptied when a new connection is made: entries of requests that died with the old connection stay - every later request with '
                   'the same action and specifier is parked behind them and times out', f)
+    for name in ('txq', 'pending'):
+        fresh = [s for t, v, s in attr_stores(f.node) if t.attr == name and dotted(t.value) == 'self' and isinstance(v, ast.Call) and 'Queue' in src(v.func)]
+        ctx.check(bool(fresh) and all(in_lock(s, '_lock') for s in fresh), f'{f.qualname}:fresh {name} queue for the new connection', f.node, f'self.{name} = queue.Queue(...)',
+                  f'connect() keeps the {name} queue of the previous connection: a shutdown marker (or a request) left in it by a transmit thread that died on a send error '
+                  'is the first thing the new transmit thread reads - the fresh connection is torn down at once', f)
     run = [i for t, v, s in attr_stores(f.node) if t.attr == '_running' and isinstance(v, ast.Constant) and v.value is True for i in cfg.node_of(s)]
     threads = [i for c in calls_in(f.node) if call_name(c) == 'mkthread' and c.args and ('rxthread' in src(c.args[0]) or 'txthread' in src(c.args[0])) for i in cfg.node_of(c)]
     ctx.check(bool(run) and bool(threads) and all(cfg.dominates(run, i) for i in threads), f'{f.qualname}:_running set before the workers start', f.node,
